@@ -5,10 +5,15 @@ ENGINES = {
     'C05': 'sim.engines.machine',
     'C07': 'sim.engines.c07',
     'C14': 'sim.engines.c14',
+    'C15': 'sim.engines.c15',
+    'C16': 'sim.engines.c16',
+    'C18': 'sim.engines.c18',
     'C19': 'sim.engines.c19',
 }
 
 ENGINE_TABLE = [
+    {'name': 'E-process', 'path': 'sim/procjob.py + sim/engines/c15.py c16.py c18.py', 'serves_properties': ['C15', 'C16', 'C18'],
+     'kind_free_text': 'the front end under test runs as fresh OS processes (setarch -R, seeded PYTHONHASHSEED) that fork per job; jobs carry a seeded heap-noise prelude, a seeded history of earlier jobs in the same process and write faults of the in-memory file system; outputs are compared with a pristine reference process and with the Metamath reference model R4'},
     {'name': 'E-pipeline', 'path': 'sim/engines/pipeline.py', 'serves_properties': ['C02', 'C03', 'C14', 'C19'],
      'kind_free_text': 'proof modules composed with the real toolkit (seeded forward composition of primitive rules and every public library lemma over an import graph), serialised by the real ProofExp.serialize through an in-memory file system (SimFS) installed at the module-global open seam, then handed to the real Rust checker, the reference machine R1, the journal model R6 and the real deserialiser; stream faults injected into the live byte stream'},
     {'name': 'E-history', 'path': 'sim/engines/history.py', 'serves_properties': ['C04', 'C07'],
@@ -18,6 +23,24 @@ ENGINE_TABLE = [
 ]
 
 META = {
+    'C15': {
+        'engine': 'E-process', 'level': 'exploration', 'design_ref': 'DESIGN.md section 4 (C15)',
+        'technique': 'deterministic simulation of the converter as fresh processes under seeded hash seeds (the uncontrolled ordering the property names), decoded proofs compared with an independent Appendix-B codec',
+        'text': 'Generated databases with 0-5 mandatory variables declared in an order different from name order, synthetic compressed proofs (seeded label lists incl. empty, step numbers on every code-length boundary up to 10^6 plus uniform samples, Z after seeded steps, seeded whitespace/line layout) are parsed and converted by the real code in fresh interpreters under 6-8 PYTHONHASHSEED values per run; Lemma.proof.labels and .applied_lemmas must equal the reference decoding under every seed. Strong for the hash-seed clause; the arithmetic clause is sampled on boundaries, not enumerated (stated in DESIGN.md).',
+        'note': 'Trusted: R4 codec written from the Metamath book. Exhaustive enumeration up to 10^6 is outside this technique and is not claimed.',
+    },
+    'C16': {
+        'engine': 'E-process', 'level': 'exploration', 'design_ref': 'DESIGN.md section 4 (C16)',
+        'technique': 'deterministic simulation of the translator process (seeded hash seed, seeded compression layout of one valid derivation) feeding the real checker and a reference machine; valid-by-construction databases re-verified by an independent Metamath verifier',
+        'text': 'Proof-first generated databases in the supported fragment with a random valid derivation (re-verified by R4) are encoded in three compression layouts and translated by the real toolkit in fresh interpreters under seeded hash seeds (plus the real translate.main on real files for a sample): translation must succeed, the published claim must be the structural image of the target, the published axioms the images of the exported axioms and rules in order, and the real checker and R1 must accept, for every layout and seed.',
+        'note': 'Trusted: R4 verifier and the 20-line term->pattern image. Known finding D15 (hard-coded variable roles of the built-in statements) is reported as KNOWN-FINDING; databases of that kind are 15% of the runs and are judged separately.',
+    },
+    'C18': {
+        'engine': 'E-process', 'level': 'exploration', 'design_ref': 'DESIGN.md section 4 (C18)',
+        'technique': 'deterministic simulation of processes: seeded hash seed x heap layout x in-process history x failed-write history, byte comparison with a pristine reference process',
+        'text': 'Each target (composed or shipped proof module, generated or shipped Metamath database) is serialised to binary and pretty once in a pristine reference interpreter and three times in interpreters with seeded PYTHONHASHSEED, seeded heap-noise prelude and a seeded history of 0-4 earlier serialisations in the same process (other targets, the target object itself, formats and optimise mixed, some aborted by an injected write error); all six files must be byte-identical to the reference.',
+        'note': 'Trusted: setarch -R for reproducible addresses, SimFS. translate.main is represented by an equivalent in-memory skeleton (the real main runs in C16).',
+    },
     'C19': {
         'engine': 'E-pipeline', 'level': 'exploration', 'design_ref': 'DESIGN.md section 4 (C19)',
         'technique': 'deterministic simulation of serialisation histories on one module object (binary/pretty interleaved, optimise mixed) with step-by-step correspondence of the pretty files to the disassembled binary files; plus an artefact monitor over notation renderings',
